@@ -26,7 +26,7 @@ var localHooks bool
 
 func schedCall(name string, args ...ast.Expr) *ast.CallExpr {
 	if localHooks {
-		local := map[string]string{"ZZSchedPV": "zzSchedPV", "ZZSchedPoint": "zzSchedPoint", "ZZSchedGo": "zzSchedGo"}[name]
+		local := map[string]string{"ZZSchedPV": "zzSchedPV", "ZZSchedPoint": "zzSchedPoint", "ZZSchedGo": "zzSchedGo", "ZZSchedSelect": "zzSchedSelect"}[name]
 		return &ast.CallExpr{Fun: ast.NewIdent(local), Args: args}
 	}
 	return &ast.CallExpr{Fun: &ast.SelectorExpr{X: ast.NewIdent("zzclock"), Sel: ast.NewIdent(name)}, Args: args}
@@ -38,6 +38,14 @@ func depHooksFile(pkgName string) string {
 // hooks set by the replay harness (see zz_verif_deps.go in the package under test)
 var ZZSchedPointFn func()
 var ZZSchedGoFn func(func())
+var ZZSchedSelectFn func() int
+
+func zzSchedSelect() int {
+	if ZZSchedSelectFn != nil {
+		return ZZSchedSelectFn()
+	}
+	return -1
+}
 
 func zzSchedPoint() {
 	if ZZSchedPointFn != nil {
@@ -290,7 +298,20 @@ func (rw *rewriter) rewriteStmt(s ast.Stmt) []ast.Stmt {
 		}
 		if rw.sched {
 			rw.changed = true
-			return []ast.Stmt{pointStmt(), st}
+			// the engine's choice among several ready cases is forced: one single-case select per recorded choice
+			sw := &ast.SwitchStmt{Tag: schedCall("ZZSchedSelect"), Body: &ast.BlockStmt{}}
+			k := 0
+			for _, c := range st.Body.List {
+				cc := c.(*ast.CommClause)
+				if cc.Comm == nil {
+					continue
+				}
+				one := &ast.SelectStmt{Body: &ast.BlockStmt{List: []ast.Stmt{cc}}}
+				sw.Body.List = append(sw.Body.List, &ast.CaseClause{List: []ast.Expr{&ast.BasicLit{Kind: token.INT, Value: fmt.Sprint(k)}}, Body: []ast.Stmt{one}})
+				k++
+			}
+			sw.Body.List = append(sw.Body.List, &ast.CaseClause{Body: []ast.Stmt{st}})
+			return []ast.Stmt{pointStmt(), sw}
 		}
 	case *ast.LabeledStmt:
 		r := rw.rewriteStmt(st.Stmt)
@@ -303,7 +324,11 @@ func (rw *rewriter) rewriteStmt(s ast.Stmt) []ast.Stmt {
 		rw.rewriteExpr(st.Value)
 		if rw.sched {
 			rw.changed = true
-			return []ast.Stmt{pointStmt(), st}
+			if localHooks {
+				return []ast.Stmt{pointStmt(), st}
+			}
+			// a send may block until the receiver's turn: the helper releases the replay token while it waits
+			return []ast.Stmt{&ast.ExprStmt{X: schedCall("ZZSchedSend", st.Chan, st.Value)}}
 		}
 	case *ast.GoStmt:
 		if rw.sched {
